@@ -556,6 +556,26 @@ package eval
 //@   ensures okEntity(n.lhs, env) && vEntity(n.lhs, env).Type == n.is && evE(n.rhs, env) != nil ==> err == evE(n.rhs, env)
 //@   ensures okEntity(n.lhs, env) && vEntity(n.lhs, env).Type == n.is && evE(n.rhs, env) == nil ==> v == doInEval#0(env, vEntity(n.lhs, env), evV(n.rhs, env)) && err == doInEval#1(env, vEntity(n.lhs, env), evV(n.rhs, env))
 
+// ---- set and record literals: elements are evaluated in order (records: in key order) ----
+//@ func (setLiteralEval) Eval
+//@   props C01
+//@   results v, err
+//@   loop 1
+//@     invariant len(vals) == len(n.elements) && !isnil(vals)
+//@     invariant forall j int :: (0 <= j && j < $i) ==> (evE(n.elements[j], env) == nil && vals[j] == evV(n.elements[j], env))
+//@   ensures (exists i int :: 0 <= i && i < len(n.elements) && evE(n.elements[i], env) != nil) ==> (err != nil && (exists i int :: 0 <= i && i < len(n.elements) && err == evE(n.elements[i], env) && evE(n.elements[i], env) != nil && (forall j int :: (0 <= j && j < i) ==> evE(n.elements[j], env) == nil)))
+//@   ensures (forall i int :: (0 <= i && i < len(n.elements)) ==> evE(n.elements[i], env) == nil) ==> (err == nil && v is types.Set && (forall x types.Value :: setHas(v.(types.Set), x) == (exists i int :: 0 <= i && i < len(n.elements) && valEq(x, evV(n.elements[i], env)))))
+
+//@ func (recordLiteralEval) Eval
+//@   props C01
+//@   results v, err
+//@   loop 1
+//@     invariant !isnil(vals)
+//@     invariant forall j int :: (0 <= j && j < $i) ==> (evE(n.elements[keys[j]], env) == nil && has(vals, keys[j]) && vals[keys[j]] == evV(n.elements[keys[j]], env))
+//@     invariant forall k types.String :: has(vals, k) ==> (exists j int :: 0 <= j && j < $i && keys[j] == k)
+//@   ensures (exists k types.String :: has(n.elements, k) && evE(n.elements[k], env) != nil) ==> (err != nil && (exists k types.String :: has(n.elements, k) && evE(n.elements[k], env) != nil && err == evE(n.elements[k], env) && (forall k2 types.String :: (has(n.elements, k2) && less(k2, k)) ==> evE(n.elements[k2], env) == nil)))
+//@   ensures (forall k types.String :: has(n.elements, k) ==> evE(n.elements[k], env) == nil) ==> (err == nil && v is types.Record && (forall k types.String :: recHas(v.(types.Record), k) == has(n.elements, k)) && (forall k types.String :: has(n.elements, k) ==> recGet(v.(types.Record), k) == evV(n.elements[k], env)))
+
 // ---- sets ----
 //@ func (containsEval) Eval
 //@   props C01
